@@ -7,6 +7,7 @@ import TmVerif.Driver.LoopCmd
 import TmVerif.Driver.BytesCmd
 import TmVerif.Driver.EscapeCmd
 import TmVerif.Driver.ListingCmd
+import TmVerif.Driver.LoadCmd
 
 open TmVerif TmVerif.Proto
 
@@ -34,6 +35,9 @@ def handleLine (st : DriverState) (line : String) : DriverState × String :=
     | some r => (st, r)
     | none =>
     match ListingCmd.handle toks with
+    | some r => (st, r)
+    | none =>
+    match LoadCmd.handle toks with
     | some r => (st, r)
     | none => (st, "bad-request")
 
